@@ -48,3 +48,166 @@ def check_sigs(files, prop, monitor="signature-rejected", more="python-reference
             viols.append({"signature": f"{prop}/{monitor}/{e['suite']}/{more}", "suite": e["suite"], "item": e.get("item", 0),
                           "desc": "python single-signer verifier rejects", "detail": {k: e[k] for k in ("vk", "msg", "sig", "tag") if k in e}})
     return viols, {"counts": {"python_sigs_judged": len(evs)}, "summary": {"python_sigs_per_suite": per_suite}}
+
+
+# ---- generic event checker plumbing -----------------------------------------------------------
+def _run(files, kinds, fn, prop, count_key):
+    evs = list(read_events(files, kinds))
+    res = pmap(fn, evs)
+    viols, per_suite = [], {}
+    for e, r in zip(evs, res):
+        per_suite[e["suite"]] = per_suite.get(e["suite"], 0) + 1
+        for (monitor, more, detail) in r:
+            viols.append({"signature": f"{prop}/{monitor}/{e['suite']}/{more}", "suite": e["suite"], "item": e.get("item", 0),
+                          "desc": "python reference disagrees", "detail": detail})
+    return viols, {"counts": {count_key: len(evs)}, "summary": {count_key + "_per_suite": per_suite}}
+
+
+def merge_results(*results):
+    viols, counts, summary, classes = [], {}, {}, []
+    for v, st in results:
+        viols.extend(v)
+        for k, n in st.get("counts", {}).items():
+            counts[k] = counts.get(k, 0) + n
+        summary.update(st.get("summary", {}))
+        classes.extend(st.get("classes", []))
+    return viols, {"counts": counts, "summary": summary, "classes": classes}
+
+
+# ---- C12: sampled decoder verdicts ---------------------------------------------------------------
+def _judge_dec(e):
+    from . import decode_ref
+    cls = e["cls"]
+    ref = decode_ref.accepts(e["suite"], cls, bytes.fromhex(e["hex"]))
+    if ref != e["accepted"]:
+        return [("decoder-disagrees-with-reference", f"{e['type']}/sampled", {"type": e["type"], "input": e["hex"], "library_accepts": e["accepted"], "reference_accepts": ref})]
+    return []
+
+
+def check_dec(files, prop="C12"):
+    return _run(files, {"dec"}, _judge_dec, prop, "python_decoder_verdicts")
+
+
+# ---- C06: polynomial identity of dealer output -----------------------------------------------------
+def _judge_vss(e):
+    s = fr.SUITES[e["suite"]]
+    g = s.grp
+    out = []
+    ids = [s.dec_sc(bytes.fromhex(x)) for x in e["ids"]]
+    shares = [s.dec_sc(bytes.fromhex(x)) for x in e["shares"]]
+    comm = [s.dec_el(bytes.fromhex(x)) for x in e["commitment"]]
+    key = s.dec_sc(bytes.fromhex(e["key"]))
+    if None in ids or None in shares or None in comm or key is None:
+        return [("share-off-committed-polynomial", "python-undecodable", {"event": e})]
+    if not g.eq(comm[0], s.base_mul(key)) or s.enc_el(comm[0]).hex() != e["vk"]:
+        out.append(("dealer-output-inconsistent", "python-constant-term", {"vk": e["vk"]}))
+    for i, sh in zip(ids, shares):
+        rhs = g.identity
+        for k, ck in enumerate(comm):
+            rhs = g.add(rhs, g.mul(ck, pow(i, k, s.n)))
+        if not g.eq(s.base_mul(sh), rhs):
+            out.append(("share-off-committed-polynomial", "python", {"id": hex(i)}))
+    t = len(comm)
+    xs, ys = ids[:t], shares[:t]
+    acc = 0
+    for a in range(t):
+        acc = (acc + ys[a] * s.derive_interpolating_value(xs, xs[a])) % s.n
+    if acc != key:
+        out.append(("t-shares-do-not-reconstruct", "python", {}))
+    return out
+
+
+def check_vss(files, prop="C06"):
+    return _run(files, {"vss"}, _judge_vss, prop, "python_dealer_outputs")
+
+
+# ---- C07: DKG output ---------------------------------------------------------------------------------
+def _judge_dkg(e):
+    s = fr.SUITES[e["suite"]]
+    g = s.grp
+    out = []
+    c0 = [s.dec_el(bytes.fromhex(x)) for x in e["c0"]]
+    ids = [s.dec_sc(bytes.fromhex(x)) for x in e["ids"]]
+    coeffs = [[s.dec_sc(bytes.fromhex(c)) for c in row] for row in e["coeffs"]]
+    P = g.identity
+    for c in c0:
+        P = g.add(P, c)
+    tweak = 0
+    negate = False
+    if s.taproot:
+        negate = not g.has_even_y(P)
+        Q, tweak = s.tweaked_key(P, None)
+    else:
+        Q = P
+    if s.enc_el(Q).hex() != e["vk"]:
+        out.append(("group-key-wrong", "python", {"got": e["vk"], "want": s.enc_el(Q).hex()}))
+    for idx, i in enumerate(ids):
+        sh = sum(sum(c * pow(i, k, s.n) for k, c in enumerate(row)) for row in coeffs) % s.n
+        if negate:
+            sh = (-sh) % s.n
+        sh = (sh + tweak) % s.n
+        if s.enc_sc(sh).hex() != e["shares"][idx]:
+            out.append(("share-off-summed-polynomial", "python", {"id": e["ids"][idx]}))
+        if s.enc_el(s.base_mul(sh)).hex() != e["vshares"][idx]:
+            out.append(("dkg-output-inconsistent", "python-verifying-share", {"id": e["ids"][idx]}))
+    return out
+
+
+def check_dkg(files, prop="C07"):
+    return _run(files, {"dkg"}, _judge_dkg, prop, "python_dkg_outputs")
+
+
+# ---- C15: nonce derivation -----------------------------------------------------------------------------
+def _judge_nonce(e):
+    s = fr.SUITES[e["suite"]]
+    out = []
+    share = bytes.fromhex(e["share"])
+    for which, rk, nk, ck in (("hiding", "rand_h", "hiding", "ch"), ("binding", "rand_b", "binding", "cb")):
+        want = s.H3(bytes.fromhex(e[rk]) + share)
+        if s.enc_sc(want).hex() != e[nk]:
+            out.append(("nonce-derivation", f"python-{which}", {"share": e["share"], "random": e[rk], "got": e[nk], "want": s.enc_sc(want).hex()}))
+        if s.enc_el(s.base_mul(want)).hex() != e[ck]:
+            out.append(("commitment-not-generator-times-nonce", f"python-{which}", {"got": e[ck]}))
+    return out
+
+
+def check_nonce(files, prop="C15"):
+    return _run(files, {"nonce"}, _judge_nonce, prop, "python_nonce_pairs")
+
+
+# ---- C17: randomizer derivation ----------------------------------------------------------------------------
+def _judge_randomizer(e):
+    s = fr.SUITES[e["suite"]]
+    want = s.HRAND(bytes.fromhex(e["seed"]) + bytes.fromhex(e["commitment_list"]))
+    if s.enc_sc(want).hex() != e["randomizer"]:
+        return [("randomizer-derivation", "python", {"seed": e["seed"], "got": e["randomizer"], "want": s.enc_sc(want).hex()})]
+    return []
+
+
+def check_randomizer(files, prop="C17"):
+    return _run(files, {"randomizer"}, _judge_randomizer, prop, "python_randomizers")
+
+
+# ---- C18: BIP-341 output key and BIP-340 verification --------------------------------------------------------
+def _judge_taproot(e):
+    s = fr.SUITES["secp256k1-tr"]
+    g = s.grp
+    out = []
+    P = g.decode(bytes.fromhex(e["internal_key"]))
+    root = bytes.fromhex(e["merkle_root"]) if e.get("merkle_root") is not None else None
+    if e["tweaked"]:
+        Q, _ = s.tweaked_key(P, root)
+    else:
+        Q = P
+    qx = g.xbytes(Q)
+    if qx.hex() != e["output_key_x"]:
+        out.append(("output-key-wrong", "python-bip341", {"got": e["output_key_x"], "want": qx.hex()}))
+    if not s.bip340_verify(qx, bytes.fromhex(e["msg"]), bytes.fromhex(e["sig"])):
+        out.append(("bip340-rejected", "python", {"q": qx.hex(), "sig": e["sig"], "msg": e["msg"]}))
+    if e["tweaked"] and s.bip340_verify(g.xbytes(P), bytes.fromhex(e["msg"]), bytes.fromhex(e["sig"])):
+        out.append(("verifies-under-untweaked-key", "python", {}))
+    return out
+
+
+def check_taproot(files, prop="C18"):
+    return _run(files, {"taproot"}, _judge_taproot, prop, "python_taproot_sessions")
